@@ -54,14 +54,25 @@ def generate(rng, tier):
                 texts.append((b'{"a":' * n + tok + b"}" * (j % 3), "stack-exhaustion"))
     cases = []
     for t, cls in texts:
-        alloc = rng.choice(["pool", "simple", "track", "track", "guard"] if len(t) < 400 else ["pool", "simple", "track"])
+        alloc = rng.choice(["pool", "simple", "track", "track", "guard", "gpool"] if len(t) < 400 else ["pool", "simple", "track"])
         cases.append({"lines": [f"parse {alloc} {G.hx(t)}"], "cls": cls + "/" + alloc, "nontrivial": len(t) > 2})
     pool = [t for t, _ in texts if len(t) < 200]
     for _ in range(300 if quick else 30000):
         k = rng.randrange(2, 6)
-        alloc = rng.choice(["pool", "simple", "track", "guard"])
+        alloc = rng.choice(["pool", "simple", "track", "guard", "gpool"])
         seq = [rng.choice(pool) for _ in range(k)]
         cases.append({"lines": [f"parse-seq {alloc} " + " ".join(G.hx(t) for t in seq)], "cls": "reuse/" + alloc, "nontrivial": True})
+    # reuse with GROWING inputs: the second text is 1..66 bytes longer than the first (a buffer kept from the earlier parse would be
+    # too small by less than the 64-byte padding), ending in blanks / a string / a number / a truncated token
+    bases = [d for d in docs if 2 <= len(d) <= 160][: (25 if quick else 1500)] + [b"[" + b"1," * 98 + b"1]"]
+    for d in bases:
+        for k in ([1, 3, 62, 64, 66] if quick else range(1, 67)):
+            grown = [d + b" " * k, b"[" + d + b',"' + b"s" * max(0, k - 5) + b'"]', b"[" + d + b"," + b"7" * max(1, k - 3) + b"]",
+                     b"[" + d + b',"' + b"s" * max(0, k - 4)]
+            g = rng.choice(grown)
+            alloc = rng.choice(["gpool", "gpool", "pool", "guard", "track"])
+            seq = [d, g] if rng.random() < 0.7 else [d + b"]", g, d]
+            cases.append({"lines": [f"parse-seq {alloc} " + " ".join(G.hx(t) for t in seq)], "cls": "reuse-grow/" + alloc, "nontrivial": True})
     return cases
 
 
